@@ -146,3 +146,206 @@ func checkManifestUniqueEntries(r *Run, p *packages.Package) {
 	}
 	_ = token.NoPos
 }
+
+// checkVerificationLoopsTotal (R8): a loop that verifies every listed fragment (calls one of the checksum verifiers for
+// each entry) must reach the verifier on every iteration. A `continue` in front of it — for an entry whose lookup
+// failed, say — lets an entry through unverified: a substituted fragment whose manifest path is spelled so that the
+// lookup misses is promoted with the rest.
+func checkVerificationLoopsTotal(r *Run, p *packages.Package) {
+	const rule = "C20-R8-verification-loop-total"
+	info := p.TypesInfo
+	isVerifier := func(c *ast.CallExpr) bool {
+		fn := calleeOf(info, c)
+		if fn == nil || fn.Pkg() != p.Types {
+			return false
+		}
+		switch fn.Name() {
+		case "verifyChecksum", "verifyChecksumValues":
+			return true
+		}
+		return false
+	}
+	n := 0
+	for _, f := range p.Syntax {
+		for _, d := range f.Decls {
+			fd, ok := d.(*ast.FuncDecl)
+			if !ok || fd.Body == nil {
+				continue
+			}
+			ast.Inspect(fd.Body, func(x ast.Node) bool {
+				rs, ok := x.(*ast.RangeStmt)
+				if !ok {
+					return true
+				}
+				// the innermost loop that directly contains the verifier call
+				var verify *ast.CallExpr
+				ast.Inspect(rs.Body, func(y ast.Node) bool {
+					if inner, ok := y.(*ast.RangeStmt); ok && inner != rs {
+						return false
+					}
+					if inner, ok := y.(*ast.ForStmt); ok {
+						_ = inner
+						return false
+					}
+					if c, ok := y.(*ast.CallExpr); ok && isVerifier(c) && verify == nil {
+						verify = c
+					}
+					return true
+				})
+				if verify == nil {
+					return true
+				}
+				n++
+				var skip token.Pos
+				ast.Inspect(rs.Body, func(y ast.Node) bool {
+					if inner, ok := y.(*ast.RangeStmt); ok && inner != rs {
+						return false
+					}
+					if br, ok := y.(*ast.BranchStmt); ok && br.Tok == token.CONTINUE && br.Pos() < verify.Pos() && skip == token.NoPos {
+						skip = br.Pos()
+					}
+					return true
+				})
+				construct := funcDeclName(fd) + ":range " + exprString(r.Fset, rs.X)
+				if skip != token.NoPos {
+					r.Fail(rule, construct, skip, "an iteration of the loop over %s can `continue` before %s is called: the entry it skips is accepted without its digest and size being compared, so a substituted fragment passes validation", exprString(r.Fset, rs.X), exprString(r.Fset, verify.Fun))
+				} else {
+					r.Pass(rule, construct, verify.Pos(), "every iteration reaches the checksum verifier")
+				}
+				return true
+			})
+		}
+	}
+	if n < 2 {
+		r.Undecide("C20-R8: fewer than two loops that verify fragment checksums found (%d)", n)
+	}
+}
+
+// checkEOFGateCountsBytes (R5, EOF gate): an io.Reader may return the last bytes together with io.EOF. The gate that
+// confirms the stream ended after the final frame reads one more byte and must look at the byte count before it looks
+// at the error: a success return that can be reached with n > 0 accepts an archive with a byte appended to it whenever
+// the underlying reader reports data and EOF in one call.
+func checkEOFGateCountsBytes(r *Run, p *packages.Package) {
+	const rule = "C20-R5-envelope"
+	info := p.TypesInfo
+	fd := FuncDecls(p)["requireEncryptedArchiveEOF"]
+	if fd == nil || fd.Body == nil {
+		r.Undecide("C20-R5: requireEncryptedArchiveEOF not found")
+		return
+	}
+	// the byte count of the Read call
+	var count types.Object
+	ast.Inspect(fd.Body, func(x ast.Node) bool {
+		as, ok := x.(*ast.AssignStmt)
+		if !ok || len(as.Lhs) != 2 || len(as.Rhs) != 1 {
+			return true
+		}
+		if call, ok := as.Rhs[0].(*ast.CallExpr); ok {
+			if sel, ok := call.Fun.(*ast.SelectorExpr); ok && (sel.Sel.Name == "Read" || sel.Sel.Name == "ReadFull") {
+				if id, ok := as.Lhs[0].(*ast.Ident); ok {
+					count = info.ObjectOf(id)
+				}
+			}
+		}
+		return true
+	})
+	if count == nil {
+		r.Undecide("C20-R5: the EOF gate no longer reads with a byte count")
+		return
+	}
+	// does the expression, taken as false (neg) or true, imply count == 0?
+	var impliesZero func(e ast.Expr, neg bool) bool
+	impliesZero = func(e ast.Expr, neg bool) bool {
+		e = ast.Unparen(e)
+		switch t := e.(type) {
+		case *ast.UnaryExpr:
+			if t.Op == token.NOT {
+				return impliesZero(t.X, !neg)
+			}
+		case *ast.BinaryExpr:
+			if t.Op == token.LAND && !neg {
+				return impliesZero(t.X, false) || impliesZero(t.Y, false)
+			}
+			if t.Op == token.LOR && neg {
+				return impliesZero(t.X, true) || impliesZero(t.Y, true)
+			}
+			id, ok := ast.Unparen(t.X).(*ast.Ident)
+			if !ok || info.Uses[id] != count {
+				return false
+			}
+			tv, has := info.Types[t.Y]
+			if !has || tv.Value == nil || tv.Value.String() != "0" {
+				return false
+			}
+			if neg {
+				return t.Op == token.GTR || t.Op == token.NEQ
+			}
+			return t.Op == token.EQL || t.Op == token.LEQ
+		}
+		return false
+	}
+	n, bad := 0, token.NoPos
+	var stack []ast.Node
+	ast.Inspect(fd.Body, func(x ast.Node) bool {
+		if x == nil {
+			stack = stack[:len(stack)-1]
+			return true
+		}
+		stack = append(stack, x)
+		rs, ok := x.(*ast.ReturnStmt)
+		if !ok || len(rs.Results) != 1 || !isNilIdent(info, ast.Unparen(rs.Results[0])) {
+			return true
+		}
+		n++
+		safe := false
+		for _, l := range pathConditions(fd.Body, rs) {
+			if impliesZero(l.Expr, l.Neg) {
+				safe = true
+			}
+		}
+		// earlier ifs that leave, and earlier cases of an enclosing tagless switch
+		ast.Inspect(fd.Body, func(y ast.Node) bool {
+			if ifs, ok := y.(*ast.IfStmt); ok && ifs.End() <= rs.Pos() && len(ifs.Body.List) > 0 {
+				if _, leaves := ifs.Body.List[len(ifs.Body.List)-1].(*ast.ReturnStmt); leaves && impliesZero(ifs.Cond, true) {
+					safe = true
+				}
+			}
+			return true
+		})
+		for i, a := range stack {
+			sw, ok := a.(*ast.SwitchStmt)
+			if !ok || sw.Tag != nil || i+2 >= len(stack) {
+				continue
+			}
+			for _, c := range sw.Body.List {
+				cc := c.(*ast.CaseClause)
+				if cc.Pos() <= rs.Pos() && rs.End() <= cc.End() {
+					for _, e := range cc.List {
+						if impliesZero(e, false) {
+							safe = true
+						}
+					}
+					break
+				}
+				for _, e := range cc.List {
+					if impliesZero(e, true) {
+						safe = true
+					}
+				}
+			}
+		}
+		if !safe && bad == token.NoPos {
+			bad = rs.Pos()
+		}
+		return true
+	})
+	if n == 0 {
+		r.Undecide("C20-R5: the EOF gate has no success return")
+		return
+	}
+	if bad != token.NoPos {
+		r.Fail(rule, "requireEncryptedArchiveEOF:count-before-error", bad, "the gate can report success without having ruled out that the read returned a byte: a reader that hands back data together with io.EOF (gzip, iotest.DataErrReader) makes an archive with one byte appended look complete")
+	} else {
+		r.Pass(rule, "requireEncryptedArchiveEOF:count-before-error", fd.Pos(), "success is reported only after the byte count was found to be zero")
+	}
+}
